@@ -1,0 +1,19 @@
+//go:build verif
+
+// Machine-checked contracts for package excellent/types (comment-only; read by /verif/gocv).
+
+package types
+
+// history token: x.Call(env, params) returned `result` for a parameter list starting with `first`
+//@ pure fnCalled(x *XFunction, first XValue, result XValue) bool
+
+//@ func (x *XFunction) Call
+//@   trusted
+//@   assigns computed
+//@   records len(params) > 0 ==> fnCalled(x, params[0], result)
+
+// truthiness of a test result object is a fixed attribute of the object (objects are built once by the test
+// function; lazy initialisation does not change what they denote)
+//@ func (x *XObject) Truthy
+//@   trusted
+//@   pure
